@@ -48,7 +48,7 @@ func (c09) Classes() []sim.Class {
 func (c09) Describe() sim.Description {
 	return sim.Description{
 		Level: "exploration",
-		Rule: "(kinds added later: G imports only an immutable funcref global of A; M is a host module, H a guest importing from it; after a definer is dropped: collect, compile something else, collect, call the importer) tape-generated histories of 8-30 operations over a small module family (A: exports a function, a function reference getter, a table and a call-through-the-table function; B: imports A's functions, table and memory (which it grows, then reads through A's code); E: imports A's table and writes its own function into it with an element segment; C: private table and funcref global with set/call; D: imports A's function and pauses inside a host function between two calls of it), in one runtime or two runtimes sharing a CompilationCache: " +
+		Rule: "class generations (no twin; answers known): the exporter \"a\" is replaced 2-4 times (closed, dropped, collected, a new one registered with another constant), one importer CompiledModule is instantiated per generation, and every importer instance - current and older - must compute with the generation it was linked against, directly, through its element segment and through ref.func; otherwise: (kinds added later: G imports only an immutable funcref global of A; M is a host module, H a guest importing from it; after a definer is dropped: collect, compile something else, collect, call the importer) tape-generated histories of 8-30 operations over a small module family (A: exports a function, a function reference getter, a table and a call-through-the-table function; B: imports A's functions, table and memory (which it grows, then reads through A's code); E: imports A's table and writes its own function into it with an element segment; C: private table and funcref global with set/call; D: imports A's function and pauses inside a host function between two calls of it), in one runtime or two runtimes sharing a CompilationCache: " +
 			"instantiate (Instantiate = compiled module closed with the instance, or CompileModule+InstantiateModule), call, pass a function reference A -> host -> C (table slot or global), close instance, close compiled module, close cache, drop the harness's own Go references, force GC (1-3 cycles, finalizers drained), with a D call optionally in progress (parked in the host function) while the others happen. " +
 			"Oracle: a twin runtime receives the same history without the close/drop/GC operations; every call on a still-open instance must return the twin's result or an ordinary error; the process must survive (worker death = violation). Steps that call through a reference whose definer is dropped and has no live importer are the recorded known finding: generated, counted, not executed here; executed in the sacrificial class dangling-reference. " +
 			"Non-trivial: at least one forced GC happened after a close/drop and a later call went through an import edge, an exported table, a held reference or a call in progress; distinct = distinct operation-kind sequences",
